@@ -49,14 +49,16 @@ def rapid_seed(seed, sub_index, shard):
     return 1 + (v % (2**62))
 
 
-def build(tmp, race=False):
+def build(tmp, race=False, fuzz=None):
     """Build the test binary against the repo under test. Returns path or None."""
     repo = os.environ.get("VERIF_REPO", "/repo")
     env = go_env()
-    out = os.path.join(tmp, "checks-race.test" if race else "checks.test")
+    out = os.path.join(tmp, "checks-race.test" if race else ("checks-fuzz.test" if fuzz else "checks.test"))
     cmd = ["go", "test", "-c", "-tags", "verif", "-o", out]
     if race:
         cmd.append("-race")
+    if fuzz:
+        cmd.append("-fuzz=" + fuzz)  # coverage instrumentation for native fuzzing
     if os.path.abspath(repo) != "/repo":
         gomod = open(os.path.join(HARNESS, "go.mod")).read().replace("=> /repo", "=> " + os.path.abspath(repo))
         mf = os.path.join(tmp, "go.mod")
@@ -207,12 +209,30 @@ def run_check(pid, cfg, tier_name, seed, tmp):
     # ---- generated tier
     subs = cfg["subs"]
     procs = []
-    total_shards = sum(s.get("shards", {}).get(tier_name, 1) for s in subs)
+    total_shards = sum(s.get("shards", {}).get(tier_name, 1) for s in subs if s.get("kind") != "fuzz")
     scale = 1.0
     if total_shards > NCPU:
         scale = NCPU / total_shards
     watchdog = cfg.get("watchdog", {}).get(tier_name, 900 if tier_name == "quick" else 7200)
+    fuzz_bin = None
     for si, sub in enumerate(subs):
+        if sub.get("kind") == "fuzz":
+            if tier_name != "thorough":
+                continue
+            if fuzz_bin is None:
+                fuzz_bin = build(tmp, fuzz="Fuzz")
+                if not fuzz_bin:
+                    return 2
+            out = os.path.join(tmp, "out-%d-0" % si)
+            os.makedirs(out)
+            corpus = os.path.join(out, "work")
+            os.makedirs(corpus)
+            args = [fuzz_bin, "-test.run", "^$", "-test.fuzz", "^%s$" % sub["test"], "-test.fuzztime", sub["fuzztime"],
+                    "-test.fuzzcachedir", os.path.join(out, "fuzzcache"), "-test.timeout", "0", "-test.parallel", str(sub.get("workers", 8))]
+            logf = open(os.path.join(out, "log.txt"), "w")
+            p = subprocess.Popen(args, cwd=corpus, env=go_env(), stdout=logf, stderr=subprocess.STDOUT)
+            procs.append((si, 0, sub, out, p, logf))
+            continue
         nsh = max(1, int(sub.get("shards", {}).get(tier_name, 1) * scale))
         n = sub["cases"][tier_name]
         per = max(1, (n + nsh - 1) // nsh)
@@ -229,14 +249,10 @@ def run_check(pid, cfg, tier_name, seed, tmp):
             if sub.get("kind", "rapid") == "rapid":
                 args += ["-rapid.checks", str(per), "-rapid.seed", str(rapid_seed(seed, si, sh)),
                          "-rapid.nofailfile", "-rapid.shrinktime", sub.get("shrinktime", "20s")]
-            elif sub.get("kind") == "fuzz":
-                args = [binary, "-test.run", "^$", "-test.fuzz", "^%s$" % sub["test"], "-test.fuzztime", sub["fuzztime"][tier_name],
-                        "-test.fuzzcachedir", os.path.join(out, "fuzzcache"), "-test.timeout", "0"]
             lim = sub.get("mem_kb", 8 * 1024 * 1024)
             logf = open(os.path.join(out, "log.txt"), "w")
             pre = "ulimit -v %d; exec \"$@\"" % lim if not cfg.get("race") else "exec \"$@\""
-            p = subprocess.Popen(["bash", "-c", pre, "sh"] + args, cwd=sub.get("cwd", tmp) if sub.get("kind") != "fuzz" else os.path.join(HARNESS, "checks"),
-                                 env=env, stdout=logf, stderr=subprocess.STDOUT)
+            p = subprocess.Popen(["bash", "-c", pre, "sh"] + args, cwd=tmp, env=env, stdout=logf, stderr=subprocess.STDOUT)
             procs.append((si, sh, sub, out, p, logf))
 
     deadline = time.time() + watchdog
@@ -253,6 +269,30 @@ def run_check(pid, cfg, tier_name, seed, tmp):
     merged = {}
     for si, sh, sub, out, p, logf in procs:
         name = sub["test"]
+        if sub.get("kind") == "fuzz":
+            import re
+            log = open(os.path.join(out, "log.txt"), errors="replace").read()
+            execs = [int(x) for x in re.findall(r"execs: (\d+)", log)]
+            inter = [int(x) for x in re.findall(r"total: (\d+)\)", log)]
+            m = merged.setdefault(name, {"evaluations": 0, "nt": set(), "classes": {}, "excluded": {}, "samples": [],
+                                         "rule": sub.get("rule", "native go fuzzing (coverage-guided); distinct non-trivial = inputs that reached new coverage"),
+                                         "extra": {}, "assumptions": []})
+            m["evaluations"] += max(execs) if execs else 0
+            m["nt"].update("cov%d" % i for i in range(max(inter) if inter else 0))
+            m["samples"] = [{"fuzz_target": name, "seed_corpus": "see f.Add calls in the target"}]
+            if p.returncode not in (0, None):
+                crashers = []
+                for root, _, files in os.walk(os.path.join(out, "work")):
+                    for fn in files:
+                        crashers.append(os.path.join(root, fn))
+                if crashers:
+                    dst = save_found(pid, crashers[0], name)
+                    violations.append((dst, "fuzz target %s failed; log tail: %s" % (name, log[-1500:])))
+                elif any(("%s shard %d hit" % (name, sh)) in x for x in inconclusive):
+                    pass
+                else:
+                    inconclusive.append("fuzz target %s exited %s without a saved input; log tail:\n%s" % (name, p.returncode, log[-1500:]))
+            continue
         stats_files = [f for f in os.listdir(out) if f.startswith("stats-")]
         log_tail = open(os.path.join(out, "log.txt"), errors="replace").read()[-4000:]
         got_stats = False
